@@ -442,8 +442,8 @@ def ia32_xchg(obj, rd):
     W, R, X, B = getREX(obj)
     if W == 1:
         size = 64
-    if R == 1:
-        rd = (R << 3) + rd
+    if B == 1:
+        rd = (B << 3) + rd
     op1 = env.getreg(0, size)
     op2 = env.getreg(rd, size)
     obj.operands = [op1, op2]
